@@ -385,3 +385,238 @@ if __name__ == "__main__":
     r = generate(int(sys.argv[1]) if len(sys.argv) > 1 else 1, max_stmts=16)
     print(r["src_wrapped"])
     print(r["coq_sigs"])
+
+
+# ---- module-level family ------------------------------------------------------------------------------
+# The module Interface (types of exported module variables, also what every def sees for a global) is computed by a
+# partial evaluator over the TOP-LEVEL statements (typing/fill_types_for_lint.rs GlobalTypesBuilder), not by the
+# solver.  This family exercises exactly that evaluator: exported variables bound once, re-bound straight-line,
+# re-bound inside top-level if / if-else / for bodies (same kind and different kind, branch taken or not), bound only
+# inside a branch, tuple-unpacking targets, augmented assignment, loop variables, (re-)defined defs, aliases; values
+# of every kind the evaluator distinguishes (str / tuple / bool / None / def / builtin: definite types) and of the
+# kinds it gives up on (int list dict struct lambda index: Any).  The generator tracks the kind of value every
+# variable holds when the module has run (conditions are constant but opaque to the evaluator: they are calls), and
+# emits defs that USE the globals according to that final kind - the module is well typed and runs to completion.
+
+ML_KINDS = ("str", "tuple", "bool", "none", "int", "list", "dict", "struct", "fn1", "fn0")
+
+
+def _ml_value(rng, kind, k, defs):
+    """(source text, kind) of a value expression of the given run-time kind."""
+    if kind == "str":
+        return rng.choice(['"s%d"' % k, '"low"', '"v%d" + "w"' % k])
+    if kind == "tuple":
+        return rng.choice(['("a", "b")', '("a", None, True)', '(("x",), "y")', '("t%d",)' % k, '()'])
+    if kind == "bool":
+        return rng.choice(["True", "False"])
+    if kind == "none":
+        return "None"
+    if kind == "int":
+        return rng.choice(["10", "%d" % (k + 3), "1 << 70", "len(\"abc\")"])
+    if kind == "list":
+        return rng.choice(['[1, "a"]', "[%d]" % k, "[[1], [2]]", "list((1, 2))"])
+    if kind == "dict":
+        return rng.choice(['{"k": 1}', "{1: \"x\"}", "dict(a = 1)"])
+    if kind == "struct":
+        return "struct(a = %d)" % k
+    if kind == "fn1":       # callable with one positional argument
+        opts = ["lambda q: q", "len", "str", "repr"] + [d for d, n in defs if n == 1]
+        return rng.choice(opts)
+    if kind == "fn0":
+        opts = ['"x".upper', "lambda: 1"] + [d for d, n in defs if n == 0]
+        return rng.choice(opts)
+    raise ValueError(kind)
+
+
+def _ml_use(name, kind, k):
+    """A def that uses the global `name` the way a value of `kind` can be used (sometimes with a return annotation)."""
+    forms = {
+        "str": [('%s + "z"' % name, "str"), ("%s.upper()" % name, "str"), ("len(%s)" % name, "int")],
+        "tuple": [('%s + ("t",)' % name, "tuple"), ("len(%s)" % name, "int"), ("[x for x in %s]" % name, None)],
+        "bool": [("not %s" % name, "bool"), ("1 if %s else 2" % name, "int")],
+        "none": [("%s" % name, "None"), ("%s == None" % name, "bool")],
+        "int": [("%s - 1" % name, "int"), ("%s * 2" % name, "int"), ("%s // 3" % name, "int")],
+        "list": [("%s + [1]" % name, None), ("len(%s)" % name, "int"), ("%s[0]" % name, None)],
+        "dict": [("len(%s)" % name, "int"), ("list(%s.keys())" % name, None)],
+        "struct": [("%s.a" % name, None), ("%s.a + 1" % name, None)],
+        "fn1": [('%s("3")' % name, None)],
+        "fn0": [("%s()" % name, None)],
+    }[kind]
+    body, ret = forms[k % len(forms)]
+    ann = (" -> %s" % ret) if ret and k % 3 != 0 else ""
+    return "def use_%s()%s:\n    return %s\n" % (name, ann, body)
+
+
+ML_SHAPES = ["once", "once", "straight", "straight", "if_rebind", "if_rebind", "if_rebind", "ifelse_rebind", "for_rebind", "for_rebind",
+             "nested_rebind", "branch_only", "branch_only", "def_then_branch", "value_then_branch_def", "def_redef_branch",
+             "unpack", "aug", "forvar", "alias", "straight_def"]
+DEFINITE = ("str", "tuple", "bool", "none", "fn1", "fn0")     # kinds for which the evaluator commits to a type
+
+
+def module_level(rng, nvars=None):
+    """One module of the family.  Returns {"src", "vars": {name: final kind}, "shapes": {shape: count}, "rebind_diff": n}."""
+    nvars = nvars or rng.randint(2, 6)
+    lines, uses = [], []
+    final, shapes = {}, {}
+    defs = []            # (def name, arity) usable as function values
+    rebind_diff = 0
+    TRUE = ['len("abc") > 2', "bool([1])", 'str(1) == "1"']
+    FALSE = ['len("a") > 2', "bool([])", 'str(1) == "2"']
+    for h in range(rng.randint(0, 2)):
+        n = rng.choice([0, 1])
+        nm = "h%d" % h
+        lines.append("def %s(%s):\n    return %s" % (nm, "q" if n else "", '[q, "h"]' if n else '"h%d"' % h))
+        defs.append((nm, n))
+        final[nm] = "fn1" if n else "fn0"
+    for i in range(nvars):
+        v = "g%d" % i
+        shape = rng.choice(ML_SHAPES)
+        shapes[shape] = shapes.get(shape, 0) + 1
+        k1 = rng.choice(DEFINITE if rng.random() < 0.75 else ML_KINDS)
+        same = rng.random() < 0.3
+        k2 = k1 if same else rng.choice([k for k in ML_KINDS if k != k1])
+        k3 = rng.choice(ML_KINDS)
+        val = lambda kk: _ml_value(rng, kk, i, defs)       # noqa: E731
+        if shape == "once":
+            lines.append("%s = %s" % (v, val(k1)))
+            final[v] = k1
+        elif shape == "straight":
+            lines.append("%s = %s" % (v, val(k1)))
+            lines.append("%s = %s" % (v, val(k2)))
+            final[v] = k2
+        elif shape == "if_rebind":
+            taken = rng.random() < 0.6
+            lines.append("%s = %s" % (v, val(k1)))
+            lines.append("if %s:\n    %s = %s" % (rng.choice(TRUE if taken else FALSE), v, val(k2)))
+            final[v] = k2 if taken else k1
+            rebind_diff += k1 != k2
+        elif shape == "ifelse_rebind":
+            taken = rng.random() < 0.5
+            lines.append("%s = %s" % (v, val(k1)))
+            if rng.random() < 0.5:
+                lines.append("if %s:\n    %s = %s\nelse:\n    %s = %s" % (rng.choice(TRUE if taken else FALSE), v, val(k2), v, val(k3)))
+                final[v] = k2 if taken else k3
+            else:       # re-bound in the else branch only
+                lines.append("if %s:\n    pass\nelse:\n    %s = %s" % (rng.choice(TRUE if taken else FALSE), v, val(k2)))
+                final[v] = k1 if taken else k2
+            rebind_diff += final[v] != k1
+        elif shape == "for_rebind":
+            n = rng.choice([0, 1, 3])
+            lines.append("%s = %s" % (v, val(k1)))
+            lines.append("for _i%d in range(%d):\n    %s = %s" % (i, n, v, val(k2)))
+            final[v] = k2 if n else k1
+            final["_i%d" % i] = "int" if n else None
+            rebind_diff += k1 != k2
+        elif shape == "nested_rebind":
+            taken = rng.random() < 0.6
+            lines.append("%s = %s" % (v, val(k1)))
+            lines.append("for _i%d in [1, 2]:\n    if %s:\n        %s = %s" % (i, rng.choice(TRUE if taken else FALSE), v, val(k2)))
+            final[v] = k2 if taken else k1
+            final["_i%d" % i] = "int"
+            rebind_diff += k1 != k2
+        elif shape == "branch_only":
+            taken = rng.random() < 0.5
+            if rng.random() < 0.5:
+                lines.append("if %s:\n    %s = %s\nelse:\n    %s = %s" % (rng.choice(TRUE if taken else FALSE), v, val(k1), v, val(k2)))
+                final[v] = k1 if taken else k2
+            else:
+                lines.append("if %s:\n    %s = %s" % (rng.choice(TRUE), v, val(k1)))
+                final[v] = k1
+        elif shape == "def_then_branch":
+            taken = rng.random() < 0.6
+            lines.append("def %s(q):\n    return q" % v)
+            kk = rng.choice([k for k in ML_KINDS if k not in ("fn1", "fn0")])
+            lines.append("if %s:\n    %s = %s" % (rng.choice(TRUE if taken else FALSE), v, val(kk)))
+            final[v] = kk if taken else "fn1"
+            rebind_diff += 1
+        elif shape == "value_then_branch_def":
+            taken = rng.random() < 0.6
+            lines.append("%s = %s" % (v, val(k1)))
+            lines.append("if %s:\n    def %s(q):\n        return q" % (rng.choice(TRUE if taken else FALSE), v))
+            final[v] = "fn1" if taken else k1
+            rebind_diff += k1 != "fn1"
+        elif shape == "def_redef_branch":
+            taken = rng.random() < 0.6
+            lines.append("def %s():\n    return 1" % v)
+            lines.append("for _i%d in range(%d):\n    def %s(q):\n        return q" % (i, 1 if taken else 0, v))
+            final[v] = "fn1" if taken else "fn0"
+            final["_i%d" % i] = "int" if taken else None
+            rebind_diff += 1
+        elif shape == "straight_def":
+            lines.append("%s = %s" % (v, val(k1)))
+            lines.append("def %s(q):\n    return q" % v)
+            final[v] = "fn1"
+        elif shape == "unpack":
+            w = "u%d" % i
+            if rng.random() < 0.5:
+                lines.append("%s = %s" % (v, val(k1)))
+            lines.append("(%s, %s) = (%s, %s)" % (v, w, val(k2), val(k3)))
+            final[v], final[w] = k2, k3
+        elif shape == "aug":
+            kk = rng.choice(["str", "tuple", "int", "list"])
+            lines.append("%s = %s" % (v, val(kk)))
+            lines.append({"str": '%s += "b"', "tuple": '%s += ("b",)', "int": "%s += 1", "list": "%s += [2]"}[kk] % v)
+            final[v] = kk
+        elif shape == "forvar":
+            if rng.random() < 0.5:
+                lines.append("%s = %s" % (v, val(k1)))
+            lines.append("for %s in [%s, %s]:\n    pass" % (v, val(k2), val(k2)))
+            final[v] = k2
+        elif shape == "alias":
+            prev = [n for n, kk in final.items() if kk and not n.startswith("_")]
+            if prev:
+                src = rng.choice(prev)
+                lines.append("%s = %s" % (v, src))
+                final[v] = final[src]
+            else:
+                lines.append("%s = %s" % (v, val(k1)))
+                final[v] = k1
+        if final.get(v) and rng.random() < 0.6:
+            uses.append((v, final[v]))
+    # the consumers come after all bindings textually half of the time, before them otherwise (they are only CALLED at the end)
+    use_src = [_ml_use(n, k, rng.randrange(6)) for n, k in uses]
+    if rng.random() < 0.5:
+        body = lines + [u.rstrip("\n") for u in use_src]
+    else:
+        body = [u.rstrip("\n") for u in use_src] + lines
+    calls = ["use_%s()" % n for n, _ in uses]
+    src = "\n".join(body + calls) + "\n"
+    return {"src": src, "vars": {n: k for n, k in final.items() if k}, "shapes": shapes, "rebind_diff": rebind_diff, "uses": len(uses)}
+
+
+def module_level_table():
+    """The systematic part of the family: first binding of every kind with a definite type x every construct whose body
+    may not run exactly once x every kind of the re-bound value x (no consumer | consumer def using the final value)."""
+    out = []
+    vals = {"str": '"low"', "tuple": '("a", "b")', "bool": "True", "none": "None", "int": "10", "list": "[1, 2]", "dict": '{"k": 1}',
+            "struct": "struct(a = 1)", "fn1": "lambda q: q", "fn0": '"x".upper'}
+    first = dict(vals, fn1="len")
+    for k1 in DEFINITE + ("def",):
+        for cons in ("if-taken", "if-skipped", "else-taken", "for-1", "for-0", "for-if", "if-def"):
+            for k2 in ML_KINDS:
+                if cons == "if-def" and k2 != "fn1":
+                    continue
+                head = "def level(q):\n    return q\n" if k1 == "def" else "level = %s\n" % first[k1]
+                kk1 = "fn1" if k1 == "def" else k1
+                rb = "level = %s" % vals[k2]
+                if cons == "if-taken":
+                    body, fin = 'if len("abc") > 2:\n    %s\n' % rb, k2
+                elif cons == "if-skipped":
+                    body, fin = 'if len("a") > 2:\n    %s\n' % rb, kk1
+                elif cons == "else-taken":
+                    body, fin = 'if len("a") > 2:\n    pass\nelse:\n    %s\n' % rb, k2
+                elif cons == "for-1":
+                    body, fin = "for _i in [3, 5, 4]:\n    %s\n" % rb, k2
+                elif cons == "for-0":
+                    body, fin = "for _i in []:\n    %s\n" % rb, kk1
+                elif cons == "for-if":
+                    body, fin = "for _i in [3, 5]:\n    if _i > 4:\n        %s\n" % rb, k2
+                else:
+                    body, fin = 'if len("abc") > 2:\n    def level(q):\n        return [q]\n', "fn1"
+                for use in (False, True):
+                    src = head + body
+                    if use:
+                        src += _ml_use("level", fin, len(out)) + "use_level()\n"
+                    out.append({"src": src, "id": "%s:%s:%s:%s" % (k1, cons, k2, "use" if use else "bare"), "final": fin,
+                                "diff": fin != kk1})
+    return out
